@@ -324,13 +324,6 @@ example : splitFR lstEl 3 true false false (some 7) [] [0, 1, 2, 3, 4, 5, 6] = [
 
 /-! ### `yield_on_remainder` under an arbitrary schedule -/
 
-/-- the segments of values between consecutive `request()` calls; `cur` is the segment being filled,
-closed by the final request -/
-def segments : List (Op α) → List α → List (List α)
-  | [], cur => [cur]
-  | .fill x :: r, cur => segments r (cur ++ [x])
-  | .request :: r, cur => cur :: segments r []
-
 theorem schedule_yor_aux (e : El σ α β) (N : Nat) (rst bi : Bool) (hN : 0 < N) :
     ∀ (ops : List (Op α)) (cur : List α) (el : σ),
     (runOps e N rst bi true (ops ++ [.request]) (cur.foldl (fillR e N rst bi) (zeroSt el))).1.flatten =
